@@ -829,6 +829,9 @@ func modeC20(e *Env) {
 	var kept []*gobinlog.Transaction
 	for i := 0; i < e.N(10, 120); i++ {
 		l := GenLog(e.R, cfgs[i%len(cfgs)], quickGP(), nil)
+		if i%3 == 1 {
+			l = redeclaredLog(e.R, cfgs[i%len(cfgs)])
+		}
 		m, err := NewMaster()
 		if err != nil {
 			panic(err)
@@ -959,3 +962,35 @@ func modeC20s(e *Env) {
 }
 
 func init() { modes["c20s"] = modeC20s }
+
+
+// redeclaredLog: one table (fixed name "dj.tj", fixed column names) whose column types change between transactions - the same
+// id and name announced again after an ALTER ... MODIFY, and the name announced under a new id - so that, within one
+// process, the same table and column names are serialised with different types.
+func redeclaredLog(r *rand.Rand, cfg WireCfg) *Log {
+	l := &Log{Cfg: cfg}
+	gp := quickGP()
+	ncols := 1 + r.Intn(4)
+	mk := func(id uint64) *Table {
+		t := &Table{ID: id, DB: "dj", Name: "tj"}
+		for c := 0; c < ncols; c++ {
+			col := randomCol(r)
+			col.Name, col.Nullable, col.Uns = "c"+itoa(c), true, false
+			t.Cols = append(t.Cols, col)
+		}
+		return t
+	}
+	variants := []*Table{mk(50), mk(50), mk(51), mk(50)}
+	f := &LogFile{Name: "mysql-bin.000001"}
+	l.Files = []*LogFile{f}
+	ts := uint32(1600000000)
+	for x := 0; x < 4+r.Intn(4); x++ {
+		t := variants[x%len(variants)]
+		u := &Unit{U: "txxid", Evs: []*Ev{{K: "query", TS: ts, Cat: "begin", DB: "d", SQL: "BEGIN"}, {K: "tablemap", TS: ts, Tbl: t},
+			genRowsEv(r, pickS(r, "write", "update", "delete"), t, gp, ts), {K: "xid", TS: ts}}}
+		f.Units = append(f.Units, u)
+		ts++
+	}
+	l.Layout()
+	return l
+}
